@@ -32,6 +32,9 @@ pub fn batch_cases(seed: u64, n: usize) -> Vec<Case> {
             c.sett.excl.clear();
             c.tag = "multi-script".into();
         }
+        if i % 8 == 5 {
+            c = conflicting_hints_case(&mut r);
+        }
         if i % 8 == 3 {
             c.bytes = adjacent_blocks_text(&mut r).into_bytes();
             c.sett = Sett::default();
